@@ -46,9 +46,11 @@ struct World {
     /// tasks that completed while their (still alive) JoinHandle had no waker registered although the macro's future had polled
     /// some JoinHandle after the task was spawned: it is joining, but not watching this task
     unwatched: usize,
+    /// gates that had a parked waiter (a registered waker) at the moment they were released
+    parked_released: BTreeSet<usize>,
 }
 thread_local! {
-    static WORLD: RefCell<World> = RefCell::new(World { active: false, released: BTreeSet::new(), arrived: BTreeMap::new(), polled: BTreeSet::new(), tasks: Vec::new(), task_panics: 0, handle_polls: 0, unwatched: 0 });
+    static WORLD: RefCell<World> = RefCell::new(World { active: false, released: BTreeSet::new(), arrived: BTreeMap::new(), polled: BTreeSet::new(), tasks: Vec::new(), task_panics: 0, handle_polls: 0, unwatched: 0, parked_released: BTreeSet::new() });
 }
 pub fn active() -> bool {
     WORLD.with(|w| w.borrow().active)
@@ -252,6 +254,7 @@ pub fn run_one(
         w.task_panics = 0;
         w.handle_polls = 0;
         w.unwatched = 0;
+        w.parked_released.clear();
     });
     let mut ex = Exec {
         value: None,
@@ -299,6 +302,16 @@ pub fn run_one(
         });
         let quiescent = opts.is_empty();
         let snapshot = vrt::LOG.lock().unwrap_or_else(|e| e.into_inner()).clone();
+        // every task is idle but the macro's own future is woken and not polled yet ("the parent is not polled for a while"): evaluated
+        // with the gates whose parked waiter was woken by its release, marked by the sentinel usize::MAX in the second set
+        if !quiescent && opts.iter().all(|o| *o == Dec::PollRoot) && ex.invariant_violation.is_none() && !ex.decisions.is_empty() {
+            let (rel, mut parked) = WORLD.with(|w| {
+                let w = w.borrow();
+                (w.released.clone(), w.parked_released.clone())
+            });
+            parked.insert(usize::MAX);
+            ex.invariant_violation = inv(&rel, &parked, &snapshot);
+        }
         if quiescent && ex.invariant_violation.is_none() {
             let (rel, arr) = WORLD.with(|w| {
                 let w = w.borrow();
@@ -407,7 +420,11 @@ pub fn run_one(
                 let wk = WORLD.with(|w| {
                     let mut w = w.borrow_mut();
                     w.released.insert(g);
-                    w.arrived.remove(&g)
+                    let wk = w.arrived.remove(&g);
+                    if wk.is_some() {
+                        w.parked_released.insert(g);
+                    }
+                    wk
                 });
                 if let Some(wk) = wk {
                     wk.wake();
@@ -643,8 +660,35 @@ pub mod harness {
                         vrt::set_inp(&row);
                         let depths = p.depths;
                         let gate_of = p.gate_of;
+                        let pid = p.id;
                         let inv = move |rel: &BTreeSet<usize>, arr: &BTreeSet<usize>, log: &[String]| -> Option<String> {
                             if faulty || gate_of.is_empty() {
+                                return None;
+                            }
+                            if arr.contains(&usize::MAX) {
+                                // root-pending mode (task-spawning macros only): a branch of a step with >= 2 active branches that was parked
+                                // at a pending point, has been released (woken) and still made no progress although every task is idle —
+                                // it is not a task of its own: it only moves when the macro's future is polled
+                                if !pid.contains("spawn") {
+                                    return None;
+                                }
+                                let k = gate_of.iter().filter(|(g, _, _)| !rel.contains(g)).map(|(_, _, k)| *k).min().unwrap_or(usize::MAX);
+                                for (g, b, kk) in gate_of.iter() {
+                                    if *kk > k || depths.iter().filter(|d| **d > *kk).count() < 2 {
+                                        continue;
+                                    }
+                                    let gs: Vec<usize> = gate_of.iter().filter(|(_, bb, k2)| bb == b && k2 == kk).map(|(g, _, _)| *g).collect();
+                                    if gs.iter().any(|g| *g >= 32) || !gs.iter().all(|g| rel.contains(g)) || !arr.contains(g) {
+                                        continue;
+                                    }
+                                    let passed = log.iter().any(|e| e.starts_with(&format!("{}.{}.", b, kk)) && !e.starts_with(&format!("{}.{}.o", b, kk)));
+                                    if !passed {
+                                        return Some(format!(
+                                            "every task is idle and the macro's future has not been polled since: branch {} of step {} was parked at a pending point that has been released, but made no progress — the branch is not a task of its own (it depends on the parent being polled)",
+                                            b, kk
+                                        ));
+                                    }
+                                }
                                 return None;
                             }
                             // current step = smallest step with an unreleased gate
